@@ -15,7 +15,10 @@ RULE = ("case = random schema (non-null density varied 0.15-0.7) x %d small vali
         "fault point x EVERY applicable kind {raise, raise library error with extensions, exception returned as value, "
         "null, unserialisable leaf, non-list for list, unknown runtime type, foreign runtime type} at field level and "
         "at every list-item position is injected one at a time (exhaustive), then up to %d random pairs and %d random "
-        "subsets. Oracle: data == reference propagation result exactly; every reported error maps to a failure the "
+        "subsets; further fault kinds: unprintable exceptions and empty / nested MultipleException raised or returned, "
+        "duck-typed coercible exceptions, failures of argument hooks and of input-field hooks (plain and library-derived, on "
+        "explicitly written values and on SDL defaults), custom scalars whose result coercion yields null, introspection "
+        "fields of @nonIntrospectable schemas, lists of 513-1030 items with faults beyond index 500. Oracle: data == reference propagation result exactly; every reported error maps to a failure the "
         "reference also finds (path incl. list indices, location inside the merged field nodes, library errors keep "
         "message+extensions); every visible nulled position has an explaining error. non-trivial = a faulted execution "
         "whose reference has >=1 error; distinct by (SDL, document, variables, world, fault set)") % (DOCS_PER_SCHEMA, MAX_PAIRS, MAX_SUBSETS)
